@@ -27,6 +27,7 @@ def main():
     from simcore import env
 
     env.assert_environment()
+    env.make_worker_scratch(engine_name)
     engine = importlib.import_module(f"{engine_name}.engine")
     chan.write(json.dumps({"ready": True, "pid": os.getpid()}) + "\n")
     for line in sys.stdin:
